@@ -48,7 +48,7 @@ def step (st : St) (ws : List String) : St × String × String × String :=
   match ws with
   | ["tx"] => ({ st with m := runL st.m [.cW, .cI] }, "ok", "ok", "")
   | ["compact"] => ({ st with m := runL st.m [.kP, .kS, .kM] }, "ok", "ok", "")
-  | ["source"] => let t := specTok st.m.hasIndex st.m.wal.txs; (st, t, t, "")
+  | "source" :: _ => let t := specTok st.m.hasIndex st.m.wal.txs; (st, t, t, "")
   | ["backup"] =>
     match st.m.bk with
     | .started _ | .copiedPf _ _ => (st, "bad-op", "-", "")
@@ -61,7 +61,7 @@ def step (st : St) (ws : List String) : St × String × String × String :=
     match st.m.bk with
     | .copiedPf _ _ => ({ st with m := runL st.m [.bWal] }, "ok", "ok", "")
     | _ => (st, "no-backup", "-", "")
-  | ["restore"] =>
+  | "restore" :: _ =>
     match st.m.bk with
     | .done c0 c1 pf0 w1 =>
       let alts := (List.range (c1 - c0 + 1)).map (fun d => specTok st.m.hasIndex (c0 + d))
